@@ -875,9 +875,6 @@ pub enum SNode {
     RefB(RefHolder<SB>),
     PBoxedV(Box<Poisonable<BoxedLockCollection<SV>>>),
     PRetryB(Box<Poisonable<RetryingLockCollection<SB>>>),
-    /// over bare lock references obtained from member guards (if guards hand such references out)
-    BoxedVM(BoxedLockCollection<Vec<&'static M>>),
-    BoxedVR(BoxedLockCollection<Vec<&'static R>>),
     /// plain arrays as children (their guards are plain arrays of member guards)
     BoxedA2(BoxedLockCollection<[&'static Leaf; 2]>),
     RetryA3(Box<RetryingLockCollection<[&'static Leaf; 3]>>),
